@@ -813,9 +813,22 @@ func (r *run) judge() {
 				}
 			}
 			if r.sc.Latency > 0 && !r.svc.IgnoreCtx {
-				// a slow service that honours the request's context: the answer comes long after every caller
-				// has given up, so a request that is still answered outlived all the callers it was sent for
+				// a slow service that honours the request's context: an answer that arrives only after every
+				// caller of the name has been told that its lookup failed came from a request that outlived
+				// all the callers it was sent for (an answer that arrives while a caller is still waiting - and
+				// is then overtaken by that caller's cancellation - is the excusable case above)
+				var lastEnd time.Duration
+				for _, l2 := range r.looks {
+					if l2.name == l.name && l2.end > lastEnd {
+						lastEnd = l2.end
+					}
+				}
 				served = false
+				for _, q := range r.svc.Log {
+					if q.Name == l.name && strings.HasPrefix(q.Result, "v") && q.At+r.sc.Latency <= lastEnd {
+						served = true
+					}
+				}
 			}
 			if _, ok := d[l.name]; ok && !declared && !served {
 				r.fail("C16", "failed-lookup-installed", "every LookupSecret(%q) failed and the service never answered a request for it successfully, yet the store holds the secret", l.name)
